@@ -78,8 +78,9 @@ where
 
         // 0. capacity.
         {
+            // `len` is `start` now, `reserve` counts from `len`.
             let any_vec_raw = unsafe{any_vec_ptr.any_vec_raw_mut()};
-            any_vec_raw.reserve(new_len);
+            any_vec_raw.reserve(new_len - self.start);
         }
 
         // 1. drop elements.
